@@ -9,7 +9,7 @@
    (`uniform`), counter + number of lanes/inputs/blocks within u64. *)
 From Coq Require Import NArith ZArith List Bool Arith.
 From V Require Import Base.Res Base.Word Base.MachInt gen.GenConsts Model.Portable Model.Platform
-  Model.Kernels Proofs.KernelsP.
+  Model.Kernels Proofs.KernelsP Proofs.BlendP.
 Import ListNotations.
 Open Scope N_scope.
 
@@ -173,6 +173,13 @@ Theorem C05_platform_sse41_ffi : PlatformOK sse41_ffi_platform. Proof. exact sse
 Print Assumptions C05_platform_sse41_ffi.
 Theorem C05_platform_avx2_ffi : PlatformOK avx2_ffi_platform. Proof. exact avx2_ffi_platform_ok. Qed.
 Print Assumptions C05_platform_avx2_ffi.
+(* rust_sse2.rs: the emulation of _mm_blend_epi16 ((mask & b) | andnot(mask, a) with the cmpeq16 mask) is the
+   lane selection of the SSE4.1 instruction, for the two immediates the code uses and registers of 32-bit lanes *)
+Theorem C05_sse2_blend_is_lane_select : forall a b imm, (imm = 0xCC \/ imm = 0xC0) -> lanes32 a -> lanes32 b ->
+  blend_epi16_sse2 a b imm = blend_epi16 0 a b imm /\ lanes32 (blend_epi16 0 a b imm).
+Proof. intros a b imm Hi Ha Hb. split; [apply blend_sse2_is_lane_select; assumption|apply blend_lanes32; assumption]. Qed.
+Print Assumptions C05_sse2_blend_is_lane_select.
+
 (* inside the argument types the platform records run the vector kernels, not the guard's
    portable branch *)
 Theorem C05_guard_identity_hash_many : forall extra k inputs key ctr incr fl fs fe cap,
